@@ -34,6 +34,7 @@ Terms are nested tuples (hashable, structural equality):
   ('key', m, L) ('val', m, L)     for m.items()
   ('loopvar', name, L)            a loop-carried local inside loop L (see Interp.loops[L].carried)
   ('after', name, L)              its value after the loop
+  ('first', L, v, d)              search idiom: v at the first element of loop L on which the loop breaks, else d
   ('unbound', name)               read of a local no assignment reaches
   ('exc', L)                      the exception bound by an except clause
 """
@@ -152,6 +153,7 @@ class Interp:
         self.closures: Dict[int, Closure] = {}
         self._seq = 0
         self._atomic_cache: Dict[int, bool] = {}
+        self.assign_log: List[Tuple[str, Term, Tuple[Cond, ...], Tuple[int, ...], str]] = []
         self._stack: List[str] = []
         self.notes: List[str] = []
         self.top = Frame(func, None, func.qualname)
@@ -464,14 +466,36 @@ class Interp:
         for v in carried - targets:
             init = pre.get(v)
             lp.carried[v] = (init, frame.env.get(v) if end is not None else None)
-            if end is None or frame.env.get(v) != init:
-                frame.env[v] = ("after", v, lp.id)
+            written = any(a[0] == v and lp.id in a[3] and a[4] == frame.qual for a in self.assign_log)
+            if end is None or frame.env.get(v) != init or written:
+                frame.env[v] = self._search_result(v, lp, init, frame) or ("after", v, lp.id)
         out = _State(st.conds, st.loops)
         if s.orelse:
             r = self.exec_block(s.orelse, frame, out)
             if r is None and not lp.breaks:
                 return None
         return out
+
+    def _search_result(self, v: str, lp: Loop, init: Optional[Term], frame: Frame) -> Optional[Term]:
+        """The search idiom  `for x in xs: if C(x): v = V(x); break`  (v assigned once in the loop, on a path that breaks
+        out of it, and not read in the loop):  after the loop  v == ('first', L, V, init)  - V at the first element
+        satisfying the break condition (recorded in loops[L].breaks), else the value before the loop."""
+        if init is None or not lp.breaks:
+            return None
+        sites = [a for a in self.assign_log if a[0] == v and lp.id in a[3] and a[4] == frame.qual]
+        if len(sites) != 1:
+            return None
+        _, val, conds, loops, _ = sites[0]
+        if loops[-1] != lp.id:
+            return None
+        inside = conds[len(lp.conds):]
+        if not inside or not any(b[:len(conds)] == conds for b in lp.breaks):
+            return None
+        if len(lp.breaks) != 1:
+            return None
+        if ("loopvar", v, lp.id) in list(subterms(val)):
+            return None
+        return ("first", lp.id, val, init)
 
     def _exec_while(self, s: ast.While, frame: Frame, st: _State) -> Optional[_State]:
         lp = self._new_loop("while", None, s, st, frame)
@@ -575,6 +599,8 @@ class Interp:
     def bind(self, target: ast.AST, value: Term, frame: Frame, st: _State, node: ast.AST) -> None:
         if isinstance(target, ast.Name):
             frame.env[target.id] = value
+            if st.loops:
+                self.assign_log.append((target.id, value, st.conds, st.loops, frame.qual))
         elif isinstance(target, (ast.Tuple, ast.List)):
             n = len(target.elts)
             star = [i for i, e in enumerate(target.elts) if isinstance(e, ast.Starred)]
@@ -1068,24 +1094,44 @@ def baseline_functions() -> Set[str]:
 # queries and printing
 # ---------------------------------------------------------------------------------------------
 def subterms(t: Term):
-    yield t
-    for x in t[1:]:
-        if isinstance(x, tuple):
-            if x and isinstance(x[0], str) and x[0] in _KINDS:
-                yield from subterms(x)
-            else:
-                for y in x:
-                    if isinstance(y, tuple):
-                        if y and isinstance(y[0], str) and y[0] in _KINDS:
-                            yield from subterms(y)
-                        else:      # (kw, term) pairs
-                            for z in y:
-                                if isinstance(z, tuple) and z and isinstance(z[0], str) and z[0] in _KINDS:
-                                    yield from subterms(z)
+    """All sub-terms of t (t included), by kind."""
+    stack = [t]
+    while stack:
+        t = stack.pop()
+        yield t
+        k = t[0]
+        if k in ("const", "param", "name", "obj", "lam", "idx", "unbound"):
+            continue
+        if k == "call":
+            stack.append(t[1])
+            stack.extend(t[2])
+            stack.extend(v for _, v in t[3])
+        elif k in ("tuple", "fstr", "phi"):
+            stack.extend(t[1])
+        elif k == "bool":
+            stack.extend(t[2])
+        elif k in ("attr", "star", "dstar", "exc"):
+            stack.append(t[1])
+        elif k in ("elem", "key", "val"):
+            stack.append(t[1])
+        elif k in ("loopvar", "after"):
+            continue
+        elif k == "first":
+            stack.append(t[2])
+            stack.append(t[3])
+        elif k == "fmt":
+            stack.append(t[1])
+            if isinstance(t[3], tuple):
+                stack.append(t[3])
+        else:
+            # sub, slice, bin, un, cmp, ifexp: every tuple-valued field is a term
+            for x in t[1:]:
+                if isinstance(x, tuple) and x and isinstance(x[0], str):
+                    stack.append(x)
 
 
 _KINDS = {"const", "param", "name", "attr", "sub", "slice", "call", "bin", "un", "cmp", "bool", "ifexp", "tuple", "fstr", "fmt",
-          "obj", "lam", "elem", "idx", "key", "val", "loopvar", "after", "unbound", "exc", "star", "dstar", "phi"}
+          "obj", "lam", "elem", "idx", "key", "val", "loopvar", "after", "unbound", "exc", "star", "dstar", "phi", "first"}
 
 
 def callee(t: Term) -> Optional[str]:
@@ -1189,6 +1235,8 @@ def show(t, interp: Optional[Interp] = None, depth: int = 0) -> str:
         return "phi(" + ", ".join(s(x) for x in t[1]) + ")"
     if k == "exc":
         return f"<exc {s(t[1])}>"
+    if k == "first":
+        return f"first@{t[1]}({s(t[2])} | else {s(t[3])})"
     return repr(t)
 
 
